@@ -3,7 +3,7 @@
 //
 // One job per stdin line:
 //     <id> <class P|R|T|A|Q|B> <path> [enum=0|1] [nq=<n>] [seed=<n>] [load=<0..4>] [mult=<f>] [tmp=<dir>]
-//          [write=<binary to write while loading an ARPA> vocab=0|1] [abits=<n>] [pbits=<n>] [bbits=<n>]
+//          [write=<binary to write while loading an ARPA> vocab=0|1] [abits=<n>] [pbits=<n>] [bbits=<n>] [mem=<building_memory bytes>]
 // Every job runs in a forked child (so a crash / hang / sanitizer report of one mutant is observable and
 // does not take the others down); the parent prints exactly one line per job:
 //     <id> ok bound=<b> order=<o> digest=<hex>        model constructed, nq in-vocabulary queries ran
@@ -54,8 +54,8 @@ struct Names : public lm::EnumerateVocab {
 struct Job {
   std::string id, path, tmp;
   char cls; int enumerate; unsigned nq; uint64_t seed; int load; float mult;
-  std::string write; int vocab; int abits, pbits, bbits;
-  Job() : cls('P'), enumerate(0), nq(200), seed(1), load(-1), mult(1.5f), vocab(1), abits(-1), pbits(-1), bbits(-1) {}
+  std::string write; int vocab; int abits, pbits, bbits; uint64_t mem;
+  Job() : cls('P'), enumerate(0), nq(200), seed(1), load(-1), mult(1.5f), vocab(1), abits(-1), pbits(-1), bbits(-1), mem(0) {}
 };
 
 static const char *Classify(const std::exception &e) {
@@ -86,6 +86,7 @@ template <class M> static void Run(const Job &j) {
   if (j.abits >= 0) config.pointer_bhiksha_bits = j.abits;
   if (j.pbits >= 0) config.prob_bits = j.pbits;
   if (j.bbits >= 0) config.backoff_bits = j.bbits;
+  if (j.mem) config.building_memory = j.mem;      // trie sort buffer (the code uses at least 1 MB)
   Names names;
   if (j.enumerate) config.enumerate_vocab = &names;
   M *m = NULL;
@@ -155,6 +156,7 @@ static double Now() { struct timespec t; clock_gettime(CLOCK_MONOTONIC, &t); ret
 int main(int argc, char **argv) {
   double limit = argc > 1 ? atof(argv[1]) : 20.0;   // seconds per job
   std::string line;
+  int hangs = 0;
   while (std::getline(std::cin, line)) {
     std::istringstream in(line);
     Job j;
@@ -178,6 +180,7 @@ int main(int argc, char **argv) {
       else if (k == "abits") j.abits = atoi(v.c_str());
       else if (k == "pbits") j.pbits = atoi(v.c_str());
       else if (k == "bbits") j.bbits = atoi(v.c_str());
+      else if (k == "mem") j.mem = strtoull(v.c_str(), NULL, 10);
     }
     fflush(stdout);
     std::string errpath = j.tmp + "/" + j.id + ".err";
@@ -201,7 +204,11 @@ int main(int argc, char **argv) {
       if (Now() - t0 > limit) { kill(pid, SIGKILL); waitpid(pid, &status, 0); hung = true; break; }
       usleep(500);
     }
-    if (hung) { printf("%s hang\n", j.id.c_str()); }
+    if (hung) {
+      printf("%s hang\n", j.id.c_str());
+      // a tree that hangs once usually hangs hundreds of times: after a few, stop waiting the full limit for each
+      if (++hangs >= 4 && limit > 2.0) limit = 2.0;
+    }
     else if (WIFSIGNALED(status)) { printf("%s crash sig=%d\n", j.id.c_str(), WTERMSIG(status)); }
     else if (WIFEXITED(status) && WEXITSTATUS(status) != 0) { printf("%s crash exit=%d\n", j.id.c_str(), WEXITSTATUS(status)); }
     else { unlink(errpath.c_str()); }
